@@ -81,6 +81,22 @@ func (r *sigRenderer) expr(e *SigExpr, path []int) {
 		r.sb.WriteString("\"s\"")
 		return
 	}
+	// layouts 4..7: a nested call is written inside a composite argument - the call tree and the locations are the same
+	pre, post := "", ""
+	if len(path) > 0 && e.Closed {
+		switch r.layout {
+		case 4:
+			pre, post = "[", "]"
+		case 5:
+			pre, post = "(", ")"
+		case 6:
+			pre, post = "\"a-${", "}\""
+		case 7:
+			pre, post = "true ? ", " : \"s\""
+		}
+	}
+	r.sb.WriteString(pre)
+	defer r.sb.WriteString(post)
 	x := &callExt{}
 	r.ext[pathKey(path)] = x
 	x.Name = [2]int{r.sb.Len(), r.sb.Len() + len(e.Fn)}
@@ -117,7 +133,14 @@ func runSigCase(wt *watch, c *SigCase, idx int) []Event {
 		"attr": {IsOptional: true, Constraint: schema.AnyExpression{OfType: cty.DynamicPseudoType}},
 		"next": {IsOptional: true, Constraint: schema.AnyExpression{OfType: cty.DynamicPseudoType}},
 	}}
-	for layout := 0; layout < 4; layout++ {
+	nested := false
+	for _, a := range c.Tree.Args {
+		nested = nested || a.K == "call"
+	}
+	for layout := 0; layout < 8; layout++ {
+		if layout >= 4 && (!nested || (idx+layout)%2 != 0) {
+			continue // wrapped layouts only where something is nested (and for every other case: two of the four)
+		}
 		r := &sigRenderer{layout: layout, ext: map[string]*callExt{}}
 		r.sb.WriteString("attr = ")
 		r.expr(c.Tree, nil)
